@@ -212,6 +212,12 @@ func (t *Table) GetNextHop(target boson.Address, skips ...boson.Address) (next [
 		// remove duplication next
 		list := make(map[string]boson.Address, len(routes))
 		for _, v := range routes {
+			// a route whose path was deleted or expired must not be offered:
+			// Delete does not rewrite the persisted route list and can overlap
+			// a concurrent SavePath, so stale routes do exist
+			if _, has := t.paths.Load(v.PathKey); !has {
+				continue
+			}
 			if !v.Neighbor.MemberOf(skips) {
 				list[v.Neighbor.String()] = v.Neighbor
 			}
